@@ -359,14 +359,14 @@ def _add_zid_to_line(zid: str, line: str) -> str:
         words.pop(0)
 
     # Remove a YYYY-MM-DD create date if one existed prior to adding a ZID to
-    # the note.
-    if len(words[0]) == 10:
-        dash_idices = (4, 7)
-        for i, ch in enumerate(words[0][:10]):
-            if i not in dash_idices and not ch.isdigit():
-                break
-        else:
-            words.pop(0)
+    # the note. NOTE: Only the note's real create date (i.e. the date the new
+    # ZID carries) is removed; any other date-like first word (e.g. an
+    # impossible date like 2023-02-29) is part of the note's text.
+    if (
+        zdt.is_long_date_spec(words[0])
+        and words[0].replace("-", "") == f"20{zid[:6]}"
+    ):
+        words.pop(0)
 
     return f"{line_before_zid}{zid} {' '.join(words)}"
 
